@@ -18,6 +18,7 @@ fn alt_class(a: &h::Alt) -> String {
     h::Alt::Flip(n, _, _) => format!("flip:{n}"),
     h::Alt::ForeignCert(m) => format!("foreign-ca-certificate:{}", ["hash-kept", "hash-recomputed", "hash-dropped"][*m as usize]),
     h::Alt::UnboundGuid(m) => format!("unbound-guid:{}", ["hash-kept", "hash-recomputed", "hash-dropped"][*m as usize]),
+    h::Alt::NoHash(inner) => format!("{}+hashes-dropped", alt_class(inner)),
   }
 }
 
@@ -58,6 +59,16 @@ pub fn scenarios(tier: &str, tr: &h::Transcript) -> Vec<h::Scenario> {
             }
           }
         }
+        let mut extra = vec![];
+        for a in &alts {
+          let short_flip = matches!(a, h::Alt::Flip(n, _, _) if !n.starts_with("c.") && !n.starts_with("hash_c"));
+          let structural = !matches!(a, h::Alt::Flip(..) | h::Alt::Verbatim | h::Alt::ForeignCert(_) | h::Alt::UnboundGuid(_))
+            && !matches!(a, h::Alt::DropProp(n) | h::Alt::RenameProp(n) | h::Alt::EmptyProp(n) | h::Alt::OldValue(n) if n.starts_with("hash_c"));
+          if short_flip || structural {
+            extra.push(h::Alt::NoHash(Box::new(a.clone())));
+          }
+        }
+        alts.extend(extra);
         for alt in alts {
           v.push(h::Scenario { pos, to_b, msg, alt });
         }
@@ -131,6 +142,7 @@ pub fn run(tier: &str) -> i32 {
     // the receiver recomputes them from the c.* properties, which the signatures cover. A token without them is
     // the same genuine message.
     let void = matches!(&sc.alt, h::Alt::DropProp(n) | h::Alt::RenameProp(n) if n == "hash_c1" || n == "hash_c2");
+    // a class id change with the hashes dropped is still a class id change etc.: only the bare drop is void
     if void {
       void_alterations += 1;
     }
@@ -168,7 +180,7 @@ pub fn run(tier: &str) -> i32 {
   rep.set("distinct_nontrivial", json!(classes.len()));
   rep.set("scenario_classes", json!(classes));
   rep.set("exhaustive", json!(true));
-  rep.set("rule", json!("every point of the genuine run (0..3 messages delivered) x target (requester, replier) x message seen so far x alteration {verbatim replay/reordering/reflection, the same message of an earlier completed handshake, each other class id, every binary property dropped / renamed / emptied / replaced by its value from the earlier handshake, foreign-CA certificate and unbound GUID with the content hash kept / recomputed / dropped}; every byte of every binary property flipped for the message in its natural slot (thorough: three masks, and also one step late); one injection per run, then the genuine messages keep flowing with the discovery layer's resends for 6 rounds"));
+  rep.set("rule", json!("every point of the genuine run (0..3 messages delivered) x target (requester, replier) x message seen so far x alteration {verbatim replay/reordering/reflection, the same message of an earlier completed handshake, each other class id, every binary property dropped / renamed / emptied / replaced by its value from the earlier handshake, each of these and every flip in the nonces, keys and signatures additionally with the optional hash_c1/hash_c2 removed, foreign-CA certificate and unbound GUID with the content hash kept / recomputed / dropped}; every byte of every binary property flipped for the message in its natural slot (thorough: three masks, and also one step late); one injection per run, then the genuine messages keep flowing with the discovery layer's resends for 6 rounds"));
   rep.assumptions = vec![
     "The six-state dispatch of SecureDiscovery::participant_stateless_message_read (which plug-in call per state, state after Ok/Err, message stored for resending) is mirrored in incrate/sec/hs19.rs; every plug-in call is real".into(),
     "The adversary can set the related-message identity of a stateless message (it is not signed), so injected tokens reach the plug-in".into(),
